@@ -50,3 +50,29 @@ func mergeHeaders(into, from http.Header) {
 		into[k] = append(into[k], vals...)
 	}
 }
+
+// mergeErrorMetadata merges the metadata of an error a handler returned into
+// the headers or trailers that carry it to the client, leaving out the fields
+// that describe an HTTP message or belong to the protocols. The metadata of
+// an error that came out of a client call holds the whole header block of
+// that other response - Content-Length, Content-Type, Content-Encoding and
+// all. A handler that passes such an error on (return nil, err) must not
+// stamp this response with them.
+func mergeErrorMetadata(into, from http.Header) {
+	for key, vals := range from {
+		if isProtocolHeader(key) {
+			continue
+		}
+		into[key] = append(into[key], vals...)
+	}
+}
+
+func isProtocolHeader(key string) bool {
+	switch http.CanonicalHeaderKey(key) {
+	case "Content-Type", "Content-Length", "Content-Encoding", "Transfer-Encoding",
+		"Connection", "Keep-Alive", "Upgrade", "Te", "Trailer", "Host", "Date",
+		"User-Agent", "Accept-Encoding", "Accept-Post", "Allow":
+		return true
+	}
+	return false
+}
